@@ -45,15 +45,15 @@ def Plugin.methods : Plugin → List Str | .mk _ m _ _ => m
 def Plugin.subs : Plugin → List Plugin | .mk _ _ s _ => s
 def Plugin.threaded : Plugin → Bool | .mk _ _ _ t => t
 
-/-- `Commands._disabled.d`: canonical command name ↦ None (everywhere) | set of canonical plugin names -/
-abbrev Disabled := List (Str × Option (List Str))
+/-- `Commands._disabled.d` (since fix 8c1c1e9): canonical command name ↦ (disabled everywhere?,
+canonical names of the plugins it is disabled in) -/
+abbrev Disabled := List (Str × (Bool × List Str))
 
 /-- `DisabledCommands.disabled(command, plugin)` -/
 def isDisabled (d : Disabled) (command plugin : Str) : Bool :=
   match d.find? (fun e => e.1 = canonicalName command) with
   | none => false
-  | some (_, none) => true
-  | some (_, some ps) => ps.contains (canonicalName plugin)
+  | some (_, (everywhere, ps)) => everywhere || ps.contains (canonicalName plugin)
 
 /-- `isCommandMethod(name)` of the plugin called `plugin` whose command methods are `methods` -/
 def isCmd (d : Disabled) (plugin : Str) (methods : List Str) (name : Str) : Bool :=
@@ -62,11 +62,11 @@ def isCmd (d : Disabled) (plugin : Str) (methods : List Str) (name : Str) : Bool
 /-! ### the disabled-commands store (`DisabledCommands`) and `Owner.disable` / `Owner.enable` -/
 
 /-- `self.d[key]` / `key in self.d` on the canonical key -/
-def lookupK (d : Disabled) (k : Str) : Option (Option (List Str)) :=
+def lookupK (d : Disabled) (k : Str) : Option (Bool × List Str) :=
   (d.find? fun e => e.1 = k).map (·.2)
 
 /-- `self.d[key] = v` -/
-def setK : Disabled → Str → Option (List Str) → Disabled
+def setK : Disabled → Str → Bool × List Str → Disabled
   | [], k, v => [(k, v)]
   | (k', v') :: rest, k, v => if k' = k then (k, v) :: rest else (k', v') :: setK rest k v
 
@@ -76,63 +76,70 @@ def delK (d : Disabled) (k : Str) : Disabled := d.filter fun e => e.1 ≠ k
 /-- `DisabledCommands.add(command, plugin)` -/
 def Disabled.add (d : Disabled) (command : Str) (plugin : Option Str) : Disabled :=
   let k := canonicalName command
+  let e := (lookupK d k).getD (false, [])
   match plugin with
-  | none => setK d k none
-  | some p =>
-    match lookupK d k with
-    | none => setK d k (some [canonicalName p])
-    | some none => d                                         -- disabled everywhere: stays so
-    | some (some ps) => setK d k (some (if ps.contains (canonicalName p) then ps else ps ++ [canonicalName p]))
+  | none => setK d k (true, e.2)
+  | some p => setK d k (e.1, if e.2.contains (canonicalName p) then e.2 else e.2 ++ [canonicalName p])
+
+/-- the end of `remove`: an entry that says nothing any more is deleted -/
+def finK (d : Disabled) (k : Str) (e : Bool × List Str) : Disabled :=
+  if !e.1 && e.2.isEmpty then delK d k else setK d k e
 
 /-- `DisabledCommands.remove(command, plugin)`; `none` = KeyError -/
 def Disabled.remove (d : Disabled) (command : Str) (plugin : Option Str) : Option Disabled :=
   let k := canonicalName command
-  match plugin with
-  | none => if (lookupK d k).isSome then some (delK d k) else none
-  | some p =>
-    match lookupK d k with
-    | none => none
-    | some none => some d                                    -- disabled everywhere: nothing happens, no error
-    | some (some ps) =>
-      if ps.contains (canonicalName p) then some (setK d k (some (ps.filter fun q => q ≠ canonicalName p)))
+  match lookupK d k with
+  | none => none
+  | some (everywhere, ps) =>
+    match plugin with
+    | none => if everywhere then some (finK d k (false, ps)) else none
+    | some p =>
+      if ps.contains (canonicalName p) then some (finK d k (everywhere, ps.filter fun q => q ≠ canonicalName p))
       else none
 
 /-- `plugin.isCommand(command)` for a string (= `isCommandMethod`) of the plugin `name` with command methods `methods` -/
 def isCmdOf (d : Disabled) (name : Str) (methods : List Str) (command : Str) : Bool :=
-  !(match lookupK d (canonicalName command) with
-    | none => false
-    | some none => true
-    | some (some ps) => ps.contains (canonicalName name))
-  && command = canonicalName command && methods.contains command
+  !isDisabled d command name && command = canonicalName command && methods.contains command
+
+/-- a name in `supybot.commands.disabled`: `command` (plugin = none) or `plugin.command`, canonical.
+(The registry holds the strings; plugin and command names contain no dot, so the strings and these
+pairs correspond one to one — the correspondence run compares the strings.) -/
+abbrev ConfName := Option Str × Str
 
 /-- what `Owner.disable/enable` change: the live store `Commands._disabled` and the registry value
-`supybot.commands.disabled` (a set of canonical `command` / `plugin.command` names, read at start-up) -/
+`supybot.commands.disabled` (read again at the next start) -/
 structure OwnerSt where
   store : Disabled
-  conf : List Str
+  conf : List ConfName
 
-def dotted (plugin command : Str) : Str := canonicalName (plugin ++ '.' :: command)
+def confName (plugin : Option Str) (command : Str) : ConfName :=
+  (plugin.map canonicalName, canonicalName command)
+
+/-- `DisabledCommands.__init__`: the store a (re)started bot builds from the registry value -/
+def fromConf : List ConfName → Disabled
+  | [] => []
+  | (pl, k) :: rest => (fromConf rest).add k pl
 
 /-- `Owner.disable [<plugin>] <command>` (`command` already through the `commandName` converter);
 `plugin` = (class name, command methods) of the named plugin; the Bool = replied success -/
 def ownerDisable (s : OwnerSt) (plugin : Option (Str × List Str)) (command : Str) : OwnerSt × Bool :=
   if command = ['e', 'n', 'a', 'b', 'l', 'e'] ∨ command = ['i', 'd', 'e', 'n', 't', 'i', 'f', 'y'] then (s, false)
-  else match plugin with
-    | some (name, methods) =>
-      if isCmdOf s.store name methods command then
-        (⟨s.store.add command (some name),
-          if s.conf.contains (dotted name command) then s.conf else s.conf ++ [dotted name command]⟩, true)
-      else (s, false)
-    | none =>
-      (⟨s.store.add command none,
-        if s.conf.contains (canonicalName command) then s.conf else s.conf ++ [canonicalName command]⟩, true)
+  else
+    let pl := plugin.map (·.1)
+    let ok := match plugin with
+      | some (name, methods) => isCmdOf s.store name methods command
+      | none => true
+    if ok then
+      (⟨s.store.add command pl,
+        if s.conf.contains (confName pl command) then s.conf else s.conf ++ [confName pl command]⟩, true)
+    else (s, false)
 
 /-- `Owner.enable [<plugin>] <command>` (after fix 6f88b83): the name is looked up in the registry set
 first — when it is not there the command answers "That command wasn't disabled." and nothing
-changes; otherwise it is removed from the set and from the live store (a KeyError of the store,
-which may already have lost the entry, is ignored) and the command reports success -/
+changes; otherwise it is removed from the set and from the live store (a KeyError of the store is
+ignored) and the command reports success -/
 def ownerEnable (s : OwnerSt) (plugin : Option Str) (command : Str) : OwnerSt × Bool :=
-  let name := match plugin with | some p => dotted p command | none => canonicalName command
+  let name := confName plugin command
   if s.conf.contains name then
     (⟨(s.store.remove command plugin).getD s.store, s.conf.filter fun x => x ≠ name⟩, true)
   else (s, false)
